@@ -34,6 +34,8 @@ doc = open("DESIGN.md").read()
 a, b = "<!-- BEGIN GENERATED OBLIGATIONS -->", "<!-- END GENERATED OBLIGATIONS -->"
 i, j = doc.index(a) + len(a), doc.index(b)
 doc = doc[:i] + "\n\n" + gen + "\n" + doc[j:]
+import re as _re
+doc = _re.sub(r"\((\d+) obligations, section 5 lists", "(%d obligations, section 5 lists" % len(rows), doc, count=1)
 open("DESIGN.md", "w").write(doc)
 print("DESIGN.md section 5 regenerated: %d obligations, %d properties" % (len(rows), len(props)))
 
